@@ -88,7 +88,11 @@ def plain_cases(rng, count, text):
             k = rng.choice(KEYS)
             lines = [rng.choice(['.', '..', '.x', ' .', 'x=y', 'k2=v', '250 OK', '250-a=b', 'OK', '', k + '=z', text(), text()])
                      if rng.random() < 0.5 else text() for _ in range(rng.randint(0, 6))]
-            yield {'call': rng.choice(['getinfo', 'getinfo1']), 'keys': [k], 'form': 'block', 'first': rng.choice(['', '', text()]), 'lines': lines}
+            c = {'call': rng.choice(['getinfo', 'getinfo1']), 'keys': [k], 'form': 'block', 'first': rng.choice(['', '', text()]), 'lines': lines}
+            yield c
+            if in_h(c) and rng.random() < 0.5:
+                # the same value fetched line by line (get_info_incremental, what TorState uses for ns/all)
+                yield dict(c, call='getinfo_inc')
         else:
             k = rng.choice(['SocksPort', 'Log', 'ORPort', 'MyFamily'])
             vals = [rng.choice(['9050', '', 'DEFAULT', 'notice stdout', 'a=b', text()]) for _ in range(rng.choice([0, 1, 1, 2, 3, 5]))]
@@ -122,7 +126,7 @@ def expected(c):
     else:
         vs = c['values']
         d = {c['keys'][0]: ['default'] if not vs else ['s', vs[0]] if len(vs) == 1 else ['l', list(vs)]}
-    if c['call'] in ('getinfo1', 'getconf1'):
+    if c['call'] in ('getinfo1', 'getconf1', 'getinfo_inc'):
         return ['val', d[c['keys'][0]]]
     return ['dict', sorted([k, v] for k, v in d.items())]
 
@@ -144,7 +148,17 @@ def run_impl(c):
     out = []
     conf = c['call'].startswith('getconf')
     try:
-        if c['call'] == 'getinfo':
+        if c['call'] == 'getinfo_inc':
+            got = []
+            d = proto.get_info_incremental(c['keys'][0], got.append)
+            key = c['keys'][0]
+
+            def joined(_):
+                if not got or not got[0].startswith(key + '='):
+                    return 'first line is not key=: %r' % (got[:1],)
+                return '\n'.join([got[0][len(key) + 1:]] + got[1:])
+            d.addCallback(joined)
+        elif c['call'] == 'getinfo':
             d = proto.get_info(*c['keys'])
         elif c['call'] == 'getinfo1':
             d = proto.get_info_single(c['keys'][0])
@@ -161,7 +175,7 @@ def run_impl(c):
     kind, r = out[0]
     if kind == 'fail':
         return ['keyerror'] if r in ('KeyError', 'IndexError') else ['fail', r]
-    if c['call'] in ('getinfo1', 'getconf1'):
+    if c['call'] in ('getinfo1', 'getconf1', 'getinfo_inc'):
         return ['val', canon_val(r, conf)]
     if not isinstance(r, dict):
         return ['notdict', repr(r)]
@@ -199,7 +213,7 @@ def run_cases(cases, drv, tier):
     impls = [run_impl(c) for c in cases]
     outs = None
     if drv is not None:
-        outs = drv.run(['e2e %s %s %s' % (c['call'], ','.join(hexs(k) for k in c['keys']) if c['call'].startswith('getinfo') else '-',
+        outs = drv.run(['e2e %s %s %s' % ('getinfo1' if c['call'] == 'getinfo_inc' else c['call'], ','.join(hexs(k) for k in c['keys']) if c['call'].startswith('getinfo') else '-',
                                            hexs(reply_bytes(c))) for c in cases])
     res = []
     for i, (c, im) in enumerate(zip(cases, impls)):
